@@ -140,3 +140,49 @@ if __name__ == '__main__':
     repo = sys.argv[1] if len(sys.argv) > 1 else '/repo'
     cfg = sys.argv[2] if len(sys.argv) > 2 else 'A'
     print(get_facts(repo, cfg, verbose=True))
+
+
+def get_witness_facts(repo='/repo'):
+    """MIR facts of the witness crate (derive witnesses): returns fact dir containing des_witness.json"""
+    if repo != '/repo':
+        raise ExtractError('witness crate names /repo by path; skipped for scratch repositories')
+    os.makedirs(CACHE, exist_ok=True)
+    lock = open(os.path.join(CACHE, 'extract.lock'), 'w')
+    fcntl.flock(lock, fcntl.LOCK_EX)
+    try:
+        build_driver()
+        wdir = os.path.join(VERIF, 'witness')
+        h = hashlib.sha256(tree_hash(repo).encode())
+        for root, dirs, fs in os.walk(os.path.join(wdir, 'src')):
+            for f in sorted(fs):
+                h.update(open(os.path.join(root, f), 'rb').read())
+        key = h.hexdigest()[:24]
+        out = os.path.join(CACHE, 'facts-witness', key)
+        if os.path.exists(os.path.join(out, 'des_witness.json')):
+            return out
+        shutil.rmtree(os.path.join(CACHE, 'facts-witness'), ignore_errors=True)
+        os.makedirs(out)
+        target = os.path.join(CACHE, 'target-witness-facts')
+        fp = os.path.join(target, 'debug', '.fingerprint')
+        if os.path.isdir(fp):
+            for d in os.listdir(fp):
+                if d.startswith('des-witness'):
+                    shutil.rmtree(os.path.join(fp, d), ignore_errors=True)
+        env = dict(os.environ)
+        env.update({
+            'LD_LIBRARY_PATH': _sysroot() + '/lib',
+            'RUSTFLAGS': '--cfg tokio_unstable -Zmir-opt-level=0 -Awarnings',
+            'RUSTC_WORKSPACE_WRAPPER': DRIVER,
+            'DESFACTS_OUT': out,
+            'DESFACTS_CRATES': 'des_witness',
+            'CARGO_TARGET_DIR': target,
+            'CARGO_NET_OFFLINE': 'true',
+            'CARGO_INCREMENTAL': '0',
+        })
+        r = subprocess.run(['cargo', '+nightly', 'check', '--offline'], cwd=wdir, env=env, stdout=subprocess.PIPE, stderr=subprocess.STDOUT, text=True)
+        if r.returncode != 0 or not os.path.exists(os.path.join(out, 'des_witness.json')):
+            raise ExtractError('witness crate not analysable: ' + r.stdout[-2000:])
+        return out
+    finally:
+        fcntl.flock(lock, fcntl.LOCK_UN)
+        lock.close()
